@@ -31,6 +31,8 @@ var (
 	skipped  int
 	self     string
 	tmpDir   string
+
+	defaultB2U, defaultU2B string // types.BIG5_TO_UTF8 / UTF8_TO_BIG5 as compiled in (relative to the repository root)
 )
 
 func quiet() {
@@ -117,6 +119,8 @@ func exec1(line string) string {
 		return hx.Call(func() string { return hx.Hex(types.Utf8ToBig5(types.Big5ToUtf8(s))) })
 	case ws[0] == "tbl":
 		return runTbl(ws)
+	case ws[0] == "cfg" && len(ws) == 4:
+		return cfgBatch(ws[1], []string{ws[2] + " " + ws[3]})[0]
 	}
 	return "bad-op"
 }
@@ -130,7 +134,11 @@ func do(line string, nontrivial bool) (string, int) {
 	if !validOp(line) {
 		return "bad-op", run.Op(line, "bad-op", "bad-op", false)
 	}
-	out := exec1(line)
+	return record(line, exec1(line), nontrivial)
+}
+
+// record: the bookkeeping of one executed op (label, protocol files, oracle).
+func record(line, out string, nontrivial bool) (string, int) {
 	label := classify(line, out)
 	i := run.Op(line, out, label, nontrivial)
 	if out == "TIMEOUT" {
@@ -140,9 +148,20 @@ func do(line string, nontrivial bool) (string, int) {
 	return out, i
 }
 
+// doCfgSweep runs many inner ops under one ini variant through the variant's child in one batch.
+func doCfgSweep(variant string, inner []string) {
+	for k, out := range cfgBatch(variant, inner) {
+		record("cfg "+variant+" "+inner[k], out, true)
+	}
+}
+
 func main() {
 	if len(os.Args) > 1 && os.Args[1] == "tblchild" {
 		tblChild(os.Args[2:])
+		return
+	}
+	if len(os.Args) > 1 && os.Args[1] == "inichild" {
+		iniChild(os.Args[2:])
 		return
 	}
 	run = hx.Start("C17")
@@ -155,6 +174,7 @@ func main() {
 		panic(err)
 	}
 	defer os.RemoveAll(tmpDir)
+	defer cfgStopAll()
 
 	run.Rule = "exhaustive on the real code: every byte string of length <= 2 through both converters (65536 two-byte Big5 inputs), " +
 		"every 2- and 3-byte (generalised) UTF-8 encoding of U+0080..U+FFFF through Utf8ToBig5, Big5->UTF-8->Big5 on every two-byte code; " +
@@ -164,6 +184,7 @@ func main() {
 		"nontrivial = reaches a converter (all ops but wf)"
 
 	// the table files named by the repository's default configuration, below the repository root
+	defaultB2U, defaultU2B = types.BIG5_TO_UTF8, types.UTF8_TO_BIG5
 	pb := filepath.Join(repoRoot(), types.BIG5_TO_UTF8)
 	pu := filepath.Join(repoRoot(), types.UTF8_TO_BIG5)
 	types.BIG5_TO_UTF8, types.UTF8_TO_BIG5 = pb, pu
@@ -198,6 +219,12 @@ func validOp(line string) bool {
 	if len(ws) == 0 {
 		return false
 	}
+	if ws[0] == "cfg" {
+		if len(ws) != 4 || (ws[1] != "d" && ws[1] != "m") || (ws[2] != "b2u" && ws[2] != "u2b") {
+			return false
+		}
+		ws = ws[2:]
+	}
 	n, ok := map[string]int{"wf": 0, "b2u": 1, "u2b": 1, "rt": 1, "tbl": 4}[ws[0]]
 	if !ok || len(ws) != n+1 {
 		return false
@@ -222,6 +249,11 @@ func classify(line, out string) string {
 		suffix = ":" + strings.ToLower(out)
 	}
 	switch ws[0] {
+	case "cfg":
+		if strings.HasPrefix(out, "INIT-") || out == "child-error" {
+			return "cfg-" + ws[1] + ":init-failed"
+		}
+		return "cfg-" + ws[1] + ":" + classify(ws[2]+" "+ws[3], out)
 	case "wf":
 		return "wf"
 	case "tbl":
